@@ -1,13 +1,16 @@
 import Tahoe.Base.DrvUtil
 import Tahoe.Crypto.Derive
+import Tahoe.Crypto.Use
 /-! Driver for C17.  One operation per line; bytes as lowercase hex (`-` = empty).
     sha256 M | sha256d M | sha1 M | hmacstd K M | netstring S
     th TAG VAL T | tph TAG V1 V2 T | hasher TAG T CHUNK…        (T = `none` or a decimal int)
     f1 <fn> A | f2 <fn> A B                                     (hashutil function names)
     convtag K N SEG CONV | conv K N SEG DATA CONV | hmac TAG DATA | permute PSI SEED
     wcap WK | rcap RK | chk KEY | renew SECRET SI SEED | cancel SECRET SI SEED | dirkey WK RWURI | mutkeys PUB PRIV
+    trackers ALLOC FRS FCS SRV… | uptrackers SECRET SI TOTAL ALLOC SRV… | pubwriters SECRET WK SRV/SHNUM… |
+    mutaddlease SECRET WK SRV | chkaddlease SECRET SI SRV      (SRV = serverid/leaseSeed/weSeed/maxImmutableShareSize)
     Output: hex fields joined by `:`; `AssertionError` / `ValueError` for the modelled exceptions. -/
-open Tahoe.Drv Tahoe.Crypto.Derive Tahoe.Base.Sha256 Tahoe.Base.NetstringEnc
+open Tahoe.Drv Tahoe.Crypto.Derive Tahoe.Base.Sha256 Tahoe.Base.NetstringEnc Tahoe.Crypto.Use
 
 def parseTrunc (s : String) : Option (Option Int) :=
   if s == "none" then some none else s.toInt?.map some
@@ -46,6 +49,34 @@ def f2 (name : String) (a b : Bytes) : Option String :=
   | "ssk_readkey_data_hash" => some (hexOfBytes (sskReadkeyDataHash a b))
   | "mutable_rwcap_key_hash" => some (hexOfBytes (mutableRwcapKeyHash a b))
   | _ => none
+
+def parseServer (t : String) : Option Server :=
+  match t.splitOn "/" with
+  | [sid, lease, we, mx] => do pure ⟨← bytesOfHex sid, ← bytesOfHex lease, ← bytesOfHex we, ← mx.toNat?⟩
+  | _ => none
+
+def parseGoal (t : String) : Option (Server × Nat) :=
+  match t.splitOn "/" with
+  | [sid, lease, we, mx, sh] => do pure (⟨← bytesOfHex sid, ← bytesOfHex lease, ← bytesOfHex we, ← mx.toNat?⟩, ← sh.toNat?)
+  | _ => none
+
+def showTrackers (ts : List Tracker) : String :=
+  if ts.isEmpty then "-" else
+  ",".intercalate (ts.map (fun t => s!"{hexOfBytes t.server.serverid}={hexOfBytes t.renew}={hexOfBytes t.cancel}"))
+
+def showRW : Option (List Tracker × List Tracker) → String
+  | none => "AssertionError"
+  | some (ro, wr) => s!"W {showTrackers wr};R {showTrackers ro}"
+
+def showLeaseMsg : Option LeaseMsg → String
+  | none => "AssertionError"
+  | some m => s!"{hexOfBytes m.storageIndex}:{hexOfBytes m.renew}:{hexOfBytes m.cancel}"
+
+def showWriters : Option (List Writer) → String
+  | none => "AssertionError"
+  | some ws => if ws.isEmpty then "-" else
+    ",".intercalate (ws.map (fun w =>
+      s!"{w.shnum}={hexOfBytes w.server.serverid}={hexOfBytes w.storageIndex}={hexOfBytes w.we}={hexOfBytes w.renew}={hexOfBytes w.cancel}"))
 
 def handleOpt : List String → Option String
   | ["sha256", m] => do pure (hexOfBytes (sha256 (← bytesOfHex m)))
@@ -86,6 +117,16 @@ def handleOpt : List String → Option String
   | ["mutkeys", pub, priv] => do
       let (wk, fp) := deriveMutableKeys (← bytesOfHex pub) (← bytesOfHex priv)
       pure s!"{hexOfBytes wk}:{hexOfBytes fp}"
+  | "trackers" :: alloc :: frs :: fcs :: srvs => do
+      pure (showRW (createTrackers (← srvs.mapM parseServer) (← alloc.toNat?) (← bytesOfHex frs) (← bytesOfHex fcs)))
+  | "uptrackers" :: secret :: si :: total :: alloc :: srvs => do
+      pure (showRW (uploadTrackers (← bytesOfHex secret) (← bytesOfHex si) (← srvs.mapM parseServer) (← total.toNat?) (← alloc.toNat?)))
+  | "pubwriters" :: secret :: wk :: goal => do
+      pure (showWriters (publishWriters (mkMutNode (← bytesOfHex secret) (← bytesOfHex wk)) (← goal.mapM parseGoal)))
+  | ["mutaddlease", secret, wk, srv] => do
+      pure (showLeaseMsg (mutableAddLease (mkMutNode (← bytesOfHex secret) (← bytesOfHex wk)) (← parseServer srv)))
+  | ["chkaddlease", secret, si, srv] => do
+      pure (showLeaseMsg (checkerAddLease (← bytesOfHex secret) (← bytesOfHex si) (← parseServer srv)))
   | _ => none
 
 def handle (toks : List String) : String :=
